@@ -4,7 +4,9 @@
 //! singleton application and per batch, for every built-in operator in each supported
 //! direction, with tuples generated inside, at the edge of and far outside the documented /
 //! declared domain, NaN in any subset of the four elements; plus pipelines containing failing
-//! steps (count = minimum over the steps, stack underflow) and unsupported inverses.
+//! steps (count = minimum over the steps, stack underflow) and unsupported inverses; plus the
+//! singular points of the 3-D operators' own formulas (molodensky: h = -M(lat), -N(lat); cart: the
+//! centre, the axis, tiny radii; geodesic: coincident / antipodal pairs), constructed exactly.
 //!
 //! The per-operator facts (which elements are written, which output element depends on which
 //! input element, where the declared domain limits are) were transcribed from
@@ -36,6 +38,7 @@ const REGISTERED: &[&str] = &[
     "null-grid-outside-not-passed@deflection-fwd",
     "nan-not-propagated@cart-inv",
     "underflow-not-nan@stack-swap",
+    "counted-but-nan@molodensky-singular-point",
 ];
 
 // ---- basic types -------------------------------------------------------------------------
@@ -2177,6 +2180,273 @@ fn check_multi(case: &MultiCase, rec: &mut Rec) -> CaseResult {
     Ok(())
 }
 
+// ---- the formulas' own singular points ---------------------------------------------------------------
+//
+// "At the edge of and far outside the domain" for the 3-D operators means the points where their own
+// denominators vanish. They are single exact floating point relations between the elements of a tuple
+// (a height equal to minus a latitude dependent radius of curvature, a point on the axis of rotation,
+// an exactly antipodal pair) which no random or grid generator produces, so they are constructed here,
+// with the library's public ellipsoid functions, for every ellipsoid of the catalogue and not only for the
+// one the operator is parameterised with. The oracle does not need to know which points are singular:
+// on every tuple  uncounted => NaN,  counted => NaN-free (for a NaN-free input) and, where the operator is
+// nowhere an identity, counted => not bit-identical in the elements worked on.
+
+#[derive(Clone, Debug, Serialize, Deserialize)]
+struct SingCase {
+    op: OpCfg,
+    fwd: bool,
+    /// (label of the point class, input tuple)
+    tups: Vec<(String, P4)>,
+    /// the operator has non-zero parameters: a counted tuple cannot come back bit-identical in the
+    /// elements the operator works on
+    moves: bool,
+}
+
+/// (parameters, the ellipsoid the formulas are evaluated on: ellps_0 when the pair is given, else ellps,
+/// else the context default GRS80)
+const MOLO_PARAMS: [(&str, &str); 8] = [
+    ("ellps_0=WGS84 ellps_1=intl dx=84.87 dy=96.49 dz=116.95", "WGS84"),
+    ("ellps_0=intl ellps_1=GRS80 dx=-84.87 dy=-96.49 dz=-116.95", "intl"),
+    ("ellps_0=bessel ellps_1=WGS84 dx=582 dy=105 dz=414", "bessel"),
+    ("ellps=GRS80 da=-251 df=-0.000014192702 dx=-87 dy=-96 dz=-120", "GRS80"),
+    ("ellps=intl da=251 df=0.000014192702 dx=87 dy=96 dz=120", "intl"),
+    ("da=-251 df=-0.000014192702 dx=-10 dy=20 dz=30", "GRS80"),
+    ("ellps=GRS67 dx=10 dy=-20 dz=30", "GRS67"),
+    ("ellps=bessel dx=1 dy=2 dz=3 da=100 df=0.00001", "bessel"),
+];
+
+const SING_LATS: [f64; 18] = [
+    0.7, 0.0, -0.0, 1.0e-9, 0.1, 0.5, std::f64::consts::FRAC_PI_4, 1.0, 1.2, 1.5, 1.5707, FRAC_PI_2, -FRAC_PI_2, -0.7, -1.3, 1.570_796_326_794_896_3, 2.0, -3.0,
+];
+
+/// latitude number k: the special values first, then a low-discrepancy sequence over [-pi/2, pi/2]
+fn sing_lat(k: usize) -> f64 {
+    if k < SING_LATS.len() {
+        return SING_LATS[k];
+    }
+    let x = ((k - SING_LATS.len() + 1) as f64 * 0.618_033_988_749_894_9).fract();
+    -FRAC_PI_2 + PI * x
+}
+
+/// Tuples at (lon, lat) whose height makes `M + h` or `N + h` exactly zero (and 1 ulp off) for every
+/// ellipsoid of the catalogue, between two ordinary tuples. `own` is the operator's ellipsoid.
+fn radius_height_tuples(lon: f64, lat: f64, own: &str, t: f64) -> Vec<(String, P4)> {
+    let pole = if lat.abs() == FRAC_PI_2 { "exact pole, " } else { "" };
+    let mut v = vec![(format!("{pole}ordinary height"), p4(lon, lat, 100.0, t))];
+    for e in ELL {
+        let el = Ellipsoid::named(e).expect("catalogue ellipsoid");
+        let m = el.meridian_radius_of_curvature(lat);
+        let n = el.prime_vertical_radius_of_curvature(lat);
+        let who = if e == own { "operator's" } else { "another" };
+        v.push((format!("{pole}h = -M(lat), {who} ellipsoid"), p4(lon, lat, -m, t)));
+        v.push((format!("{pole}h = -N(lat), {who} ellipsoid"), p4(lon, lat, -n, t)));
+        if e == own {
+            for h in [(-m).next_up(), (-m).next_down(), (-n).next_up(), (-n).next_down()] {
+                v.push((format!("{pole}h = -M(lat) or -N(lat) +- 1 ulp"), p4(lon, lat, h, t)));
+            }
+        }
+    }
+    v.push((format!("{pole}ordinary height"), p4(-lon, -lat, 250.0, t)));
+    v
+}
+
+const MOLO_WRAPS: usize = 4;
+const SING_LONS: [f64; 3] = [0.2, -2.5, 0.0];
+
+fn sing_molodensky(i: usize) -> SingCase {
+    let (par, own) = MOLO_PARAMS[i % MOLO_PARAMS.len()];
+    let r = i / MOLO_PARAMS.len();
+    let ab = r % 2 == 1;
+    let r = r / 2;
+    let wrap = r % MOLO_WRAPS;
+    let r = r / MOLO_WRAPS;
+    let fwd = r % 2 == 0;
+    let r = r / 2;
+    let lon = SING_LONS[r % SING_LONS.len()];
+    let lat = sing_lat(r / SING_LONS.len());
+    let ab_txt = if ab { " abridged" } else { "" };
+    let def = match wrap {
+        0 => format!("molodensky {par}{ab_txt}"),
+        1 => format!("molodensky inv {par}{ab_txt}"),
+        2 => format!("noop | molodensky {par}{ab_txt} | noop"),
+        _ => format!("noop | molodensky{ab_txt} {par} inv | noop"),
+    };
+    let op = OpCfg { fam: "molodensky".into(), def, tag: if ab { "abridged" } else { "" }.into(), num: vec![], grid: None };
+    SingCase { op, fwd, tups: radius_height_tuples(lon, lat, own, tsel((i % 8) as f64 / 8.0 + 0.01)), moves: true }
+}
+
+/// cart: forward at the heights above (h = -N(lat) is a point on the axis of rotation, h = -M(lat) a point of the
+/// evolute), inverse at the centre of the earth, on the axis and in the equatorial plane at tiny radii
+fn sing_cart(i: usize, nlat: usize) -> SingCase {
+    let ell = ELL[i % ELL.len()];
+    let r = i / ELL.len();
+    let op = OpCfg { fam: "cart".into(), def: format!("cart ellps={ell}"), tag: String::new(), num: vec![], grid: None };
+    if r < nlat {
+        let mut tups = radius_height_tuples(SING_LONS[r % 3], sing_lat(r), ell, 2020.0);
+        let el = Ellipsoid::named(ell).expect("catalogue ellipsoid");
+        // the centre of the earth in geographic coordinates
+        tups.push(("geographic image of the centre".into(), p4(0.3, FRAC_PI_2, -el.semiminor_axis(), 2020.0)));
+        tups.push(("geographic image of the centre".into(), p4(0.3, 0.0, -el.semimajor_axis(), 2020.0)));
+        return SingCase { op, fwd: true, tups, moves: true };
+    }
+    let el = Ellipsoid::named(ell).expect("catalogue ellipsoid");
+    let (a, b) = (el.semimajor_axis(), el.semiminor_axis());
+    let cutoff = a * 1.0e-16;
+    let tiny = [1.0e-300, 1.0e-12, cutoff.next_down(), cutoff, cutoff.next_up(), 1.0e-9, 1.0e-6];
+    let mut tups: Vec<(String, P4)> = vec![];
+    match r - nlat {
+        0 => {
+            for (x, y, z) in [(0.0, 0.0, 0.0), (-0.0, 0.0, -0.0), (0.0, -0.0, 0.0), (0.0, 0.0, -0.0), (-0.0, -0.0, -0.0)] {
+                tups.push(("centre of the earth".into(), p4(x, y, z, 2020.0)));
+            }
+            for z in [1.0e-300, 1.0e-9, 1.0, b.next_down(), b, b.next_up(), 6.4e6, 1.0e9] {
+                for s in [1.0, -1.0] {
+                    tups.push(("on the axis of rotation".into(), p4(0.0, 0.0, s * z, 2020.0)));
+                    tups.push(("on the axis of rotation".into(), p4(-0.0, 0.0, s * z, 0.0)));
+                }
+            }
+        }
+        1 => {
+            for p in tiny {
+                for z in [0.0, -0.0, 1.0e-300, 1.0e-9, 1.0, b, -b, -1.0e-9] {
+                    tups.push(("tiny distance from the axis".into(), p4(p, 0.0, z, 2020.0)));
+                    tups.push(("tiny distance from the axis".into(), p4(-p * 0.6, p * 0.8, z, 1999.5)));
+                }
+            }
+        }
+        _ => {
+            let es = el.eccentricity_squared();
+            for p in tiny.into_iter().chain([1.0e-3, 1.0, 1.0e3, a * es, (a * es).next_up(), a]) {
+                for z in [0.0, -0.0] {
+                    for (cx, cy) in [(1.0, 0.0), (0.0, 1.0), (-1.0, 0.0), (0.6, -0.8)] {
+                        tups.push(("equatorial plane, tiny radius".into(), p4(cx * p, cy * p, z, 2020.0)));
+                    }
+                }
+            }
+        }
+    }
+    SingCase { op, fwd: false, tups, moves: true }
+}
+
+/// geodesic: coincident and exactly antipodal pairs (inverse), zero and half-circumference distances (forward)
+fn sing_geodesic(i: usize) -> SingCase {
+    let ell = ELL[i % ELL.len()];
+    let r = i / ELL.len();
+    let rev = r % 2 == 1;
+    let fwd = (r / 2) % 2 == 0;
+    let op = OpCfg {
+        fam: "geodesic".into(),
+        def: format!("geodesic{} ellps={ell}", if rev { " reversible" } else { "" }),
+        tag: if rev { "reversible" } else { "" }.into(),
+        num: vec![],
+        grid: None,
+    };
+    let el = Ellipsoid::named(ell).expect("catalogue ellipsoid");
+    let (a, b) = (el.semimajor_axis(), el.semiminor_axis());
+    let mut tups: Vec<(String, P4)> = vec![];
+    if fwd {
+        for lat in [0.0, 45.0, 90.0, -90.0, -33.3] {
+            for az in [0.0, 90.0, 180.0, 33.0, -90.0] {
+                for d in [0.0, -0.0, 1.0e-9] {
+                    tups.push(("zero distance".into(), p4(lat, 12.0, az, d)));
+                }
+                for d in [PI * b, PI * a, 2.0 * PI * a, 2.0 * PI * b] {
+                    tups.push(("half / full circumference".into(), p4(lat, -100.0, az, d)));
+                }
+            }
+        }
+    } else {
+        for lat in [0.0, 45.0, -33.3, 90.0, -90.0, 89.999_999, 1.0e-12] {
+            for lon in [0.0, 12.0, 180.0, -180.0] {
+                tups.push(("coincident pair".into(), p4(lat, lon, lat, lon)));
+                tups.push(("coincident pair (360 degrees apart)".into(), p4(lat, lon, lat, lon + 360.0)));
+                tups.push(("exactly antipodal pair".into(), p4(lat, lon, -lat, lon + 180.0)));
+                tups.push(("exactly antipodal pair".into(), p4(lat, lon, -lat, lon - 180.0)));
+                tups.push(("antipodal pair off by 1e-13 degree".into(), p4(lat, lon, -lat + 1.0e-13, lon + 180.0 - 1.0e-13)));
+            }
+        }
+        for (l1, l2) in [(0.0, 0.0), (10.0, -170.0), (0.0, 123.0), (77.0, 77.0)] {
+            tups.push(("pole to pole".into(), p4(90.0, l1, -90.0, l2)));
+            tups.push(("pole to pole".into(), p4(-90.0, l1, 90.0, l2)));
+        }
+    }
+    SingCase { op, fwd, tups, moves: false }
+}
+
+fn check_sing(case: &SingCase, rec: &mut Rec) -> CaseResult {
+    let cfg = &case.op;
+    let fwd = case.fwd;
+    let tr = traits(cfg, fwd);
+    let mut ctx = new_ctx(&None)?;
+    let op = match try_op(&mut ctx, &cfg.def) {
+        Err(p) => vfail!(format!("panic-instantiate@{}", p.sig()), "instantiating '{}' panics: {} at {}:{}", cfg.def, p.msg, p.file, p.line),
+        Ok(Err(e)) => vfail!(format!("catalogue-definition-rejected@{}", cfg.fam), "catalogue definition '{}' rejected: {e:?}", cfg.def),
+        Ok(Ok(op)) => op,
+    };
+    let dir = dirname(fwd);
+    let label = format!("{}-{dir}", cfg.fam);
+    rec.class(&label);
+    let inputs: Vec<Coor4D> = case.tups.iter().map(|t| c4(&t.1)).collect();
+    let mut fails: Vec<Failure> = vec![];
+    let mut outcomes = [false; 2];
+    for ((kind, _), before) in case.tups.iter().zip(&inputs) {
+        let mut d = vec![*before];
+        let count = run_apply(&ctx, op, fwd, &mut d, &cfg.def)?;
+        let after = d[0];
+        let outcome = match (count, has_nan(&after)) {
+            (0, true) => "NaN, not counted",
+            (0, false) => "NaN-free, not counted",
+            (_, true) => "NaN, counted",
+            _ => "NaN-free, counted",
+        };
+        rec.count(&format!("{label}: {kind} => {outcome}"), 1);
+        outcomes[usize::from(count == 1 && !has_nan(&after))] = true;
+        let tup = Tup { p: to_p4(before), mask: 0, cls: Cls::Any, via_fwd: false };
+        if let Some(f) = check_tuple(cfg, fwd, &tr, &tup, before, &after, count) {
+            fails.push(f);
+            continue;
+        }
+        let ctxt = || format!("definition '{}' ({dir}), point class '{kind}'\n input  {}\n output {}\n reported count {count} for this singleton", cfg.def, fmt_c4(before), fmt_c4(&after));
+        if count == 1 && has_nan(&after) {
+            fails.push(Failure {
+                key: format!("counted-but-nan@{}-singular-point", cfg.fam),
+                msg: format!("NaN-free input, the result carries NaN (the tuple could not be transformed) but it is counted as a success (property: overwritten with NaN *and not counted*)\n{}", ctxt()),
+            });
+        } else if case.moves && count == 1 && (0..4).all(|k| !tr.w[k] || bits_eq(before[k], after[k])) {
+            fails.push(Failure {
+                key: format!("counted-but-unchanged@{}-singular-point", cfg.fam),
+                msg: format!("the tuple is counted as a success but every element the operator works on comes back bit-identical (the operator is nowhere an identity)\n{}", ctxt()),
+            });
+        }
+    }
+    // the batch: count <= len, every uncounted tuple carries NaN, every NaN tuple is uncounted
+    let mut batch = inputs.clone();
+    let n = batch.len();
+    let count = run_apply(&ctx, op, fwd, &mut batch, &cfg.def)?;
+    let desc = || format!("definition '{}' ({dir}), batch of {n} tuples: {:?}\n after: {:?}", cfg.def, inputs.iter().map(fmt_c4).collect::<Vec<_>>(), batch.iter().map(fmt_c4).collect::<Vec<_>>());
+    if count > n {
+        fails.push(Failure { key: format!("count-exceeds-len@{label}"), msg: format!("apply reports {count} successes for {n} tuples\n{}", desc()) });
+    } else if fails.is_empty() {
+        let nan_free_out = batch.iter().filter(|c| !has_nan(c)).count();
+        if count < nan_free_out {
+            fails.push(Failure { key: format!("batch-uncounted-not-nan@{label}"), msg: format!("{} tuples are not counted but only {} tuples carry NaN after the call (count {count})\n{}", n - count, n - nan_free_out, desc()) });
+        }
+        if count > nan_free_out {
+            fails.push(Failure { key: format!("counted-but-nan@{}-singular-point", cfg.fam), msg: format!("count {count}, but only {nan_free_out} of the {n} NaN-free input tuples come back without NaN\n{}", desc()) });
+        }
+    }
+    // every case consists of constructed singular points; distinct by definition, direction and input bits
+    rec.nontrivial(&(&cfg.def, fwd, inputs.iter().map(|c| [c[0].to_bits(), c[1].to_bits(), c[2].to_bits(), c[3].to_bits()]).collect::<Vec<_>>()));
+    if outcomes[0] && outcomes[1] {
+        rec.count("batches_mixing_failure_and_success", 1);
+    }
+    let deferred = fails.iter().filter(|f| REGISTERED.contains(&f.key.as_str())).count();
+    if deferred > 0 {
+        rec.count("violations_of_registered_findings_deferred", deferred as u64);
+    }
+    choose(fails)
+}
+
 // ---- main ----------------------------------------------------------------------------------------
 
 const GRID_FAMILIES: [&str; 3] = ["gridshift", "deflection", "deformation"];
@@ -2195,6 +2465,7 @@ fn main() {
     run.assume("multi-grid: positions are classified in the harness from the grid headers with guard bands of 0.05 cell (inside any grid shrunk by 0.05 cell, or within 0.45 cell of some grid => hit; beyond 0.55 cell of every grid => outside; in between => edge, weak clauses only); generated node values and deformation durations are non-zero, so a hit cannot come back bit-identical");
     run.assume("stand-alone push/pop/stack steps act only inside a pipeline: reporting 0 with the data untouched is accepted for them; pipelines containing a one-way operator are only checked for count = min over the steps (data legitimately stays finite)");
     run.assume("origin-shift: the unshifted input is recomputed with the subtraction the operator itself performs (x - x_0, y - y_0, lon - lon_0), so both operators see bit-identical reduced values; points where the unshifted operator's outcome changes within 1e-9 relative (+1 mm) / 1e-9 rad are excluded (counter excluded_unstable_neighbourhood); only the pattern (count, which elements are NaN) is compared, values belong to C13");
+    run.assume("singular points of the 3-D operators (sections singular-*): tuples are constructed with the library's public Ellipsoid functions so that a denominator of the documented formulas is exactly 0.0 (h = -M(lat), h = -N(lat) for each of the 5 catalogue ellipsoids, whichever the operator uses; X = Y = 0; exactly antipodal pairs) and 1 ulp off; the oracle does not rely on knowing which of them are singular for the operator: uncounted => NaN, counted => NaN-free (stronger than elsewhere: here a NaN result for a NaN-free input means the tuple could not be transformed, and the property says such a tuple is not counted), counted => not bit-identical in the worked-on elements for molodensky / cart with non-zero parameters (all three offsets of a non-zero datum shift cannot vanish together; a geographic <-> cartesian conversion never maps a tuple to itself); registered finding: molodensky NaN-marks its singular points but counts them");
     run.assume("pipeline count is compared with the minimum over the counts of the same steps instantiated stand-alone and applied one after the other to the same data (omit_* modifiers and macros belong to C03/C04)");
 
     // operators the catalogue does not know
@@ -2330,6 +2601,34 @@ fn main() {
         shift_strategy,
         check_shift,
     );
+
+    // 6. the formulas' own singular points (3-D operators)
+    {
+        let nlat = run.scale(8, 300).max(SING_LATS.len());
+        let total = MOLO_PARAMS.len() * 2 * MOLO_WRAPS * 2 * SING_LONS.len() * nlat;
+        run.sweep(
+            "singular-molodensky",
+            "molodensky: 8 parameterisations (ellps_0/ellps_1 pairs, ellps + da/df, context default ellipsoid, translations only) x full / abridged x {plain, `inv`, pipeline step, inverted pipeline step} x both directions x 3 longitudes x latitudes (exact poles, equator, +-0, beyond the poles, then a low-discrepancy sequence); per case a batch of two ordinary tuples and tuples whose height is exactly -M(lat) and -N(lat) (library's public radii of curvature, so that the sum is exactly 0.0) for each of the 5 catalogue ellipsoids, and +-1 ulp for the operator's own; singleton and batch: uncounted => NaN, counted => NaN-free and not bit-identical",
+            total,
+            sing_molodensky,
+            check_sing,
+        );
+        let nl = SING_LATS.len();
+        run.enumerate(
+            "singular-cart",
+            "cart x 5 ellipsoids: forward at heights -N(lat) (points on the axis of rotation), -M(lat), +-1 ulp, the geographic images of the centre; inverse at the centre of the earth (all signs of zero), on the axis (|Z| from 1e-300 to 1e9, incl. b +- 1 ulp), at tiny distances from the axis (1e-300 .. 1e-6 incl. the operator's cut-off a*1e-16 +- 1 ulp) and in the equatorial plane at radii 1e-300 .. a (incl. a*e^2): same clauses",
+            ELL.len() * (nl + 3),
+            move |i| sing_cart(i, nl),
+            check_sing,
+        );
+        run.enumerate(
+            "singular-geodesic",
+            "geodesic x 5 ellipsoids x plain / reversible: inverse on coincident pairs (also 360 degrees apart), exactly antipodal pairs (incl. equatorial, pole to pole), antipodal off by 1e-13 degree; forward with distance +-0, 1e-9, half and full circumferences (pi*a, pi*b, 2*pi*a, 2*pi*b) from the equator, mid latitudes and the poles: uncounted => NaN, counted => NaN-free",
+            ELL.len() * 4,
+            sing_geodesic,
+            check_sing,
+        );
+    }
 
     run.finish("invariants on (count, before, after) of Context::apply for every built-in operator in each direction, per tuple (singleton application) and per batch, over generated tuples inside / at the edge of / beyond the declared domain with NaN in all 16 subsets of elements, plus pipelines with failing steps against min over stand-alone step counts");
 }
